@@ -35,6 +35,16 @@ Proof. exact edit_no_panic. Qed.
 Theorem c09_preproc_no_panic : forall pv s, preproc pv s <> PpPanic.
 Proof. exact preproc_no_panic. Qed.
 
+(** ... nor loops: preprocReplace is one pass over the text, bounded in its
+    result, even when parameter values mention themselves or each other. *)
+Theorem c09_preproc_terminates_bounded : forall pv s,
+  match preproc pv s with
+  | PpOk out => (length out <= length s * S (max_val_len pv))%nat
+  | PpUndefined names => names <> []
+  | PpPanic => False
+  end.
+Proof. exact preproc_terminates_bounded. Qed.
+
 Theorem c09_defines_no_panic : forall defs, exists pv, parse_defines defs = Ok pv.
 Proof. exact parse_defines_no_panic. Qed.
 
